@@ -22,6 +22,12 @@ pub fn emit<W: Write>(out: &mut W, prop: &str, id: &str, s: &Sparse, cfg: &Cfg, 
     writeln!(out, "{line}").unwrap();
 }
 
+/// like `emit`, with the carrier fixed (recorded in the line so that a replay uses it again)
+pub fn emit_carrier<W: Write>(out: &mut W, prop: &str, id: &str, s: &Sparse, cfg: &Cfg, kind: Kind, carrier: u64) {
+    let r = run_mp4_carrier(s, cfg, kind, carrier);
+    writeln!(out, "{prop} id={id} {} {} kind={} carrier={carrier} {}", s.line(), cfg.line(), kind.name(), r.fields("")).unwrap();
+}
+
 pub fn replay<W: Write>(prop: &str, line: &str, out: &mut W) {
     let get = |k: &str| line.split(' ').find_map(|t| t.strip_prefix(&format!("{k}=")).map(|s| s.to_string()));
     let s = Sparse::parse_line(&get("len").unwrap(), &get("ext").unwrap());
@@ -33,6 +39,9 @@ pub fn replay<W: Write>(prop: &str, line: &str, out: &mut W) {
         },
     };
     let kind = if get("kind").as_deref() == Some("strict") { Kind::Strict } else { Kind::Seekable };
+    if let Some(c) = get("carrier") {
+        return emit_carrier(out, prop, &get("id").unwrap_or("replay".into()), &s, &cfg, kind, c.parse().unwrap());
+    }
     emit(out, prop, &get("id").unwrap_or("replay".into()), &s, &cfg, kind);
 }
 
@@ -379,6 +388,49 @@ fn header_form_cases<W: Write>(out: &mut W, prop: &str, rng: &mut Rng) {
     }
 }
 
+/// a skipped media box with a payload longer than the 32-byte look-ahead, followed by boxes that add up to exactly
+/// 8, 16 or 24 bytes (what can be buffered behind an 8- or 16-byte header) and possibly a second mdat, through every
+/// carrier: a skip that overshoots by what was buffered (a suspended inner skip polled twice, say) lands on a later box
+/// boundary and the file is still accepted - with a span that misses part of the media run
+fn overshoot_cases<W: Write>(out: &mut W, prop: &str, rng: &mut Rng) {
+    let ftyp = bx(b"ftyp", &ftyp_payload(rng, true, 2, 0), Enc::S32);
+    let moov = valid_moov(rng);
+    let cfg = Cfg::default();
+    for (nm, name) in [("mdat", b"mdat"), ("free", b"free"), ("meta", b"meta")] {
+        for enc in [Enc::S32, Enc::S64] {
+            for slack in 1..=3usize {
+                for second in [false, true] {
+                    let mut run: Vec<u8> = vec![];
+                    if nm != "mdat" {
+                        run.extend(bx(b"mdat", &[1, 2, 3, 4], Enc::S32));
+                    }
+                    run.extend(bx(name, &[7u8; 40], enc));
+                    if second {
+                        // one mdat of exactly 8 * slack bytes
+                        run.extend(bx(b"mdat", &vec![9u8; 8 * slack - 8], Enc::S32));
+                    } else {
+                        for _ in 0..slack {
+                            run.extend(bx(b"free", &[], Enc::S32));
+                        }
+                    }
+                    for (lay, bytes) in [
+                        ("noop", [ftyp.clone(), moov.clone(), run.clone()].concat()),
+                        ("rw", [ftyp.clone(), run.clone(), moov.clone()].concat()),
+                    ] {
+                        let s = Sparse::from_bytes(&bytes);
+                        for kind in [Kind::Seekable, Kind::Strict] {
+                            for carrier in 0..4u64 {
+                                emit_carrier(out, prop, &format!("overshoot-{nm}-{}-{slack}{}-{lay}-{}-c{carrier}", if enc == Enc::S64 { 64 } else { 32 },
+                                    if second { "m" } else { "f" }, kind.name()), &s, &cfg, kind, carrier);
+                            }
+                        }
+                    }
+                }
+            }
+        }
+    }
+}
+
 /// chunk-offset tables whose entry count crosses the 8- and 16-bit boundaries (a table of 65536 32-bit entries is
 /// 256 KiB: an hour of video at one chunk per 50 ms), next to a small table in a second track; media before the
 /// movie box, so every entry is relocated
@@ -423,14 +475,26 @@ pub fn run<W: Write>(prop: &str, opts: &Opts, out: &mut W) {
                 eof_mdat_cases(out, prop, &mut rng);
                 overrun_cases(out, prop, &mut rng);
                 header_form_cases(out, prop, &mut rng);
+                overshoot_cases(out, prop, &mut rng);
             }
             "C03" => {
                 eof_mdat_cases(out, prop, &mut rng);
                 overrun_cases(out, prop, &mut rng);
                 top_pathologies(out, prop, &mut rng);
                 header_form_cases(out, prop, &mut rng);
+                overshoot_cases(out, prop, &mut rng);
             }
-            "C01" | "C02" | "C04" => many_entries(out, prop, &mut rng),
+            "C01" | "C02" | "C04" => {
+                many_entries(out, prop, &mut rng);
+                // every malformed-moov family in the REWRITE layout: the unchanged code refuses them; a change that lets one
+                // through rewrites (or fails to rewrite) bytes the walker cannot attribute to a table
+                for (name, mp) in moov_mutants(&mut rng) {
+                    let s = file_with_moov(&mut rng, &mp, false);
+                    for kind in [Kind::Seekable, Kind::Strict] {
+                        emit(out, prop, &format!("moov-{name}-rw-{}", kind.name()), &s, &Cfg::default(), kind);
+                    }
+                }
+            }
             _ => {}
         }
     }
